@@ -99,7 +99,7 @@ _BUILTINS = {
     "any": any, "all": all, "reversed": reversed, "chr": chr, "ord": ord, "round": round,
     "True": True, "False": False, "None": None, "isinstance": _isinstance, "repr": repr,
     "divmod": divmod, "pow": pow, "format": format, "next": _next, "iter": list,
-    "hash": hash, "id": id, "type": lambda v: _type_of(v),
+    "hash": hash, "id": id, "type": lambda v: _type_of(v), "vars": lambda v: _vars_of(v),
     "callable": lambda v: callable(v) or isinstance(v, (FuncRef, ClassRef)) or (
         isinstance(v, tuple) and v[:1] in (("bound",), ("lambda",), ("closure",))),
 }
@@ -393,8 +393,25 @@ class ClassRef:
         return self
 
 
+def _vars_of(v):
+    """vars(obj): the live attribute dictionary of a folded object"""
+    if isinstance(v, Stub) and v.cls is not None:
+        return v.attrs
+    raise AnalysisError("constfold: vars() of a value that is not a folded object")
+
+
+_GEN_CACHE = {}
+
+
 def _is_generator(fdef):
     """does the function's own body (not a nested def / lambda) contain yield?"""
+    k = id(fdef)
+    if k not in _GEN_CACHE:
+        _GEN_CACHE[k] = (fdef, _is_generator_uncached(fdef))      # the node is kept alive with its verdict
+    return _GEN_CACHE[k][1]
+
+
+def _is_generator_uncached(fdef):
     stack = list(fdef.body)
     while stack:
         n = stack.pop()
@@ -408,6 +425,14 @@ def _is_generator(fdef):
 
 def _type_of(v):
     """type(x): the class of a folded object (comparable with == / is-by-value), the Python type of a plain value"""
+    if isinstance(v, FoldRaise):
+        name = v.exc_name
+
+        def make(*args):
+            fr = FoldRaise(f"raise {name}({', '.join(repr(a)[:40] for a in args)})", name)
+            fr.exc_args = list(args)
+            return fr
+        return make
     if isinstance(v, Stub) and v.cls is not None:
         return ClassRef(v.cls)
     if isinstance(v, (Stub, Inst)):
@@ -669,7 +694,11 @@ class Folder:
                     raise
                 if hit.name:
                     e.set(hit.name, exc)
-                self._exec_block(hit.body, e)
+                e.handling = exc
+                try:
+                    self._exec_block(hit.body, e)
+                finally:
+                    e.handling = None
             except (KeyError, IndexError, ValueError, TypeError, ZeroDivisionError) as exc:
                 for h in st.handlers:
                     names = []
@@ -690,6 +719,21 @@ class Folder:
             else:
                 self._exec_block(st.orelse, e)
         elif isinstance(st, ast.Raise):
+            if st.exc is None:
+                cur = getattr(e, "handling", None)
+                s_ = e
+                while cur is None and s_ is not None:
+                    cur = getattr(s_, "handling", None)
+                    s_ = s_.parent
+                if cur is None:
+                    raise AnalysisError("constfold: bare raise outside an except block")
+                raise cur
+            if not (isinstance(st.exc, ast.Call) and isinstance(st.exc.func, ast.Name)) and not isinstance(st.exc, ast.Name) \
+                    or (isinstance(st.exc, ast.Name) and e.has(st.exc.id) and isinstance(e.get(st.exc.id), FoldRaise)):
+                v_ = self._eval(st.exc, e)          # an exception VALUE computed by the program
+                if isinstance(v_, FoldRaise):
+                    raise v_
+                raise AnalysisError("constfold: raise of a computed value that is not a folded exception")
             fr = FoldRaise(f"raise {ast.unparse(st.exc)[:60] if st.exc is not None else ''}")
             exc = st.exc.func if isinstance(st.exc, ast.Call) else st.exc
             fr.exc_name = exc.id if isinstance(exc, ast.Name) else (exc.attr if isinstance(exc, ast.Attribute) else None)
@@ -701,6 +745,8 @@ class Folder:
                     raise
                 except AnalysisError:
                     fr.exc_args = None
+                if fr.exc_args is not None and fr.exc_name:
+                    fr.exc_args = self._exception_args(fr.exc_name, fr.exc_args, e)
             raise fr
         elif isinstance(st, ast.Global):
             e.global_names = tuple(set(getattr(e, "global_names", ())) | set(st.names))
@@ -959,6 +1005,14 @@ class Folder:
                 raise AnalysisError(f"constfold: {type(obj).__name__}.{x.attr}: {ex}")
             except AttributeError:
                 raise AnalysisError(f"constfold: {type(obj).__name__}.{x.attr} is outside the model")
+        if isinstance(obj, FoldRaise):
+            if x.attr == "args":
+                return tuple(obj.exc_args) if obj.exc_args is not None else (str(obj),)
+            if x.attr == "with_traceback":
+                return lambda tb=None: obj
+            raise AnalysisError(f"constfold: attribute {x.attr} of a caught exception")
+        if isinstance(obj, RegexConst) and x.attr in ("pattern", "flags"):
+            return obj.pattern if x.attr == "pattern" else (obj.flags or 0)
         if isinstance(obj, _dt.timedelta) and x.attr in ("days", "seconds", "microseconds"):
             return getattr(obj, x.attr)
         if isinstance(obj, tuple) and hasattr(obj, "_fields") and x.attr in obj._fields:
@@ -1030,6 +1084,9 @@ class Folder:
                     if f.attr == "extend":
                         args = [list(args[0])]
                     return getattr(selfv.attrs["__list__"], f.attr)(*args)
+                if m is None and isinstance(selfv, Stub) and selfv.attrs.get("__exc__") and f.attr == "__init__":
+                    selfv.attrs["args"] = tuple(self._elts(x.args, e))
+                    return None
                 if m is None and isinstance(selfv, Stub) and "__model_cls__" in selfv.attrs:
                     args = [self._hostify(a) for a in self._elts(x.args, e)]
                     kw = self._kwargs(x, e)
@@ -1106,6 +1163,9 @@ class Folder:
                         args = [list(args[0])]
                     return getattr(obj.attrs["__list__"], f.attr)(*args, **kw)     # inherited from list
                 raise AnalysisError(f"constfold: method {f.attr} of {obj!r}")
+            if isinstance(obj, FoldRaise) and f.attr == "with_traceback":
+                self._elts(x.args, e)
+                return obj
             if isinstance(obj, HostModel):
                 args = [self._hostify(a) for a in self._elts(x.args, e)]
                 kw = {k_: self._hostify(v_) for k_, v_ in self._kwargs(x, e).items()}
@@ -1230,6 +1290,8 @@ class Folder:
                 empty = ast.Call(func=ast.Name(id="__factory__", ctx=ast.Load()), args=[], keywords=[])
                 tgt = args[0]
                 return collections.defaultdict(lambda: self._apply(tgt, empty, e))
+        if dotted == "sys.exc_info":
+            return (None, None, None)        # only the traceback slot is ever used (with_traceback), and that is ignored
         if dotted == "collections.deque":
             import collections
             return collections.deque(*args, **kw)
@@ -1324,6 +1386,30 @@ class Folder:
         if isinstance(tgt, types.FunctionType):
             return tgt(*args, **kw)          # a stand-in supplied by the rule's stub (folded code cannot make one)
         raise AnalysisError(f"constfold: call of {type(tgt).__name__} {str(tgt)[:80] if isinstance(tgt, tuple) else str()}")
+
+    def _exception_args(self, name, args, e):
+        """`.args` of an in-package exception built from `args`: a constructor the class (or an in-package base) defines is
+        folded; `super().__init__(*a)` reaching the builtin base stores a"""
+        b = self.index.resolve(e.mod, name)
+        cls = None
+        if b is not None and b.kind == "class":
+            try:
+                v = self.value(b.module, b.name)
+                cls = v.cls if isinstance(v, ClassRef) else None
+            except AnalysisError:
+                cls = None
+        init = cls.find_method("__init__") if cls is not None else None
+        if init is None:
+            return args
+        obj = Stub(name, {"args": tuple(args)}, cls=cls)
+        obj.attrs["__exc__"] = True
+        try:
+            self.call_function(init, list(args), {}, self_value=obj)
+        except FoldRaise:
+            raise
+        except AnalysisError as ex:
+            raise AnalysisError(f"constfold: constructor of exception {name} cannot be folded: {ex}")
+        return list(obj.attrs.get("args", ()))
 
     def _exc_subclass(self, name, handler_names, e):
         """is the in-package exception class `name` a subclass of one of handler_names?"""
